@@ -14,7 +14,8 @@ RULE = ("Model-based histories on ONE Spinner over a deterministic virtual-time 
         "delivered at a generated virtual instant), generated tie-breaking between calls due at the same instant and "
         "generated pre-installed SIGINT/SIGTERM/SIGCHLD handlers; or clear_junk(). Oracle from the statement: "
         "result / exception / TimeoutError / NoResultError / ReentryError / StaleJunkError by a timeline model "
-        "(ties admit either outcome), reactor not running, no delayed calls or selectables left, leftovers reported "
+        "(ties admit either outcome, except that a timeout/result tie is decided by the order the reactor used, see ASSUMPTIONS; the spinner's own "
+        "error classes are recognised by isinstance, not by name), reactor not running, no delayed calls or selectables left, leftovers reported "
         "as junk, reactor.stop and the three signal handlers restored. A small real-reactor tier (thorough) runs the "
         "timing-insensitive subset on the global reactor. Also: f firing (callback or errback) the Deferred an earlier unfinished run waited on, delayed calls that exist before run(), positional and keyword arguments of run(), fractional timeouts, reactor.stop and pending calls after a refused run. "
         "Also (third audit): selectables that exist before run(); one or two stop requests per run (SIGINT, SIGTERM or a bare reactor.stop(), the second in the "
@@ -31,9 +32,18 @@ ASSUMPTIONS = [
     "the spinner's own timeout call, still pending when the reactor is interrupted, counts as a leftover (it is cancelled and reported as junk)",
     "... but that is a tolerance, not a demand: a spinner that cancels its own timeout call itself and does not report it is admitted "
     "(the junk count has a lower and an upper bound; third audit C2)",
-    "when the timeout and the Deferred are due in the same reactor pass, the one the reactor ran first decides: the timeout call having run while the "
-    "Deferred had not fired is 'the Deferred has not fired when timeout elapses'; if the spinner scheduled no delayed call due at start + timeout "
-    "(it keeps time differently) both outcomes are admitted",
+    "when the timeout and the Deferred are due in the same reactor pass, the order the reactor actually used decides (the statement's 'equal' is read "
+    "through it, not as 'either'): the timeout call having run while the Deferred had not fired is 'the Deferred has not fired when timeout elapses', so "
+    "once the timeout call has run the run has timed out and run() must raise TimeoutError - a value OR a failure that reaches the Deferred later in "
+    "that same pass must not replace it (a spinner whose Deferred failure overrides a timeout that already ran, e.g. through an '.active()' guard "
+    "around the cancellation of the timeout call, is reported; fourth audit 1, kept deliberately); the result call having run first gives the result; "
+    "if the spinner scheduled no delayed call due at start + timeout (it keeps time differently) both outcomes are admitted",
+    "'raises TimeoutError / NoResultError / StaleJunkError / ReentryError' is judged by isinstance against the classes "
+    "testtools.twistedsupport._spinner exports under these names (a renamed class behind the alias or a subclass is admitted; the builtin "
+    "TimeoutError is not the spinner's TimeoutError)",
+    "a bare reactor.stop() called while run() is in progress is a stop request like SIGINT / SIGTERM and must leave the reactor usable for the next "
+    "run: the statement's 'reactor.stop ... what it was before the call' is read as making the stop->crash substitution part of the contract; a spinner "
+    "that handles the signals itself and leaves reactor.stop alone would be reported on such histories (fourth audit 3)",
     "a function that completes synchronously decides the run before any timed event or stop request at virtual instant 0 (the spinner starts f as soon "
     "as the reactor runs); a spinner that started f through a 0-delay call would be judged against this model (third audit C3)",
     "'reported as junk' is read as: the leftover delayed call / selectable object itself is in the list get_junk() / clear_junk() return",
@@ -126,6 +136,22 @@ class UserError(Exception):
 
 
 EXC = {"UserError": UserError, "KeyboardInterrupt": KeyboardInterrupt, "SystemExit": SystemExit}
+SPINNER_ERRORS = ("TimeoutError", "NoResultError", "StaleJunkError", "ReentryError")
+
+
+def classify(e, spinner_classes):
+    """The label of an exception that left run().  The spinner's own errors are recognised by isinstance against the
+    classes the module exports under the documented names (a renamed class behind the public alias, or a subclass,
+    still 'raises TimeoutError / NoResultError'), never by the name of the class.  Everything else is labelled with
+    its class name - qualified with its module when the bare name would read like one of the spinner's errors (the
+    builtin TimeoutError) or like one of the harness's own exception classes without being it."""
+    for name, cls in spinner_classes:
+        if isinstance(e, cls):
+            return name
+    name = type(e).__name__
+    if name in SPINNER_ERRORS or (name in EXC and type(e) is not EXC[name]):
+        return "%s.%s" % (type(e).__module__, name)
+    return name
 
 
 class Hostile:
@@ -187,7 +213,12 @@ class SReactor(VReactor):
         self.at(t, deliver)
 
     def stop(self):
-        VReactor.stop(self)
+        # like ReactorBase.stop(): refused before the first run() and after an earlier real stop(), NOT merely because
+        # crash() was called earlier in this pass or run (crash() does not mark the reactor as stopped)
+        if self.stopped_for_good or not self.runs:
+            from twisted.internet.error import ReactorNotRunning
+            raise ReactorNotRunning("Can't stop reactor that isn't running.")
+        self.running = False
         self.stopped_for_good = True
 
     def run(self, installSignalHandlers=True):
@@ -204,6 +235,9 @@ def run_case(spec):
     with SignalSandbox():
         reactor = SReactor()
         spinner = Spinner(reactor)
+        # the classes as the module exports them under the documented names, looked up at run time
+        spinner_classes = (("TimeoutError", TimeoutError), ("NoResultError", NoResultError),
+                           ("StaleJunkError", StaleJunkError), ("ReentryError", ReentryError))
         hostile = Hostile()
         original_stop = reactor.stop
         junk_pending = 0
@@ -256,7 +290,7 @@ def run_case(spec):
                     except ReentryError:
                         late_inner.append(("ReentryError",))
                     except Exception as e:
-                        late_inner.append(("other", type(e).__name__))
+                        late_inner.append(("other", classify(e, spinner_classes)))
                 fired_extra.append(j)
 
             fired_old = []
@@ -292,7 +326,7 @@ def run_case(spec):
                     except ReentryError:
                         inner.append(("ReentryError",))
                     except Exception as e:
-                        inner.append(("other", type(e).__name__))
+                        inner.append(("other", classify(e, spinner_classes)))
                 k = step["kind"]
                 if k == "return":
                     return value
@@ -330,7 +364,7 @@ def run_case(spec):
             except BaseException as e:
                 if isinstance(e, (MemoryError, RecursionError)):
                     raise
-                res = ("raise", type(e).__name__)
+                res = ("raise", classify(e, spinner_classes))
                 raised = e
             if res[0] == "value" and res[1] is hostile:
                 res = ("value", "HOSTILE")
